@@ -88,7 +88,9 @@ pub fn exec(sc: &Scenario, gen: Option<(Rng, &str)>) -> FaultRun {
             st.faults.clear();
         }
         let op = ops_done[fop].clone();
-        w.after_fault(&op);
+        // what the caller does next varies with the fault position: use everything first, retry a failed flush at once, or just close
+        let style = (sc.faults.first().map(|f| f.at).or(sc.dead_from).unwrap_or(0) + sc.clock0) % 3;
+        w.after_fault(&op, style as u8);
     } else if w.faulty && w.aborted.is_none() {
         // the fault index was never reached (cannot happen when enumerating indices of the reference run) or it fired outside a judged call
         if disk.fired_total() > 0 {
@@ -115,7 +117,7 @@ pub fn exec(sc: &Scenario, gen: Option<(Rng, &str)>) -> FaultRun {
 impl<'a> World<'a> {
     /// After the call that hit the fault: (3) retry it if it is read-only, (2) use and close every
     /// handle, (4) judge the medium, relaxing only the object the failed call operated on.
-    pub fn after_fault(&mut self, op: &Op) {
+    pub fn after_fault(&mut self, op: &Op, style: u8) {
         self.aborted = None;
         self.faulty = false; // faults have stopped: ordinary oracles apply again, re-labelled below
         let before = self.viols.len();
@@ -184,9 +186,25 @@ impl<'a> World<'a> {
             self.pending_eff = None;
             self.step(op);
         }
+        // style 1: the natural reaction to a failed flush is to flush again, with nothing in between
+        if style == 1 {
+            if let Op::Flush { fs, .. } = op {
+                if let Some((h, _)) = self.fslots[*fs as usize].cur.clone() {
+                    self.probes.hit("failed_flush_retried_at_once");
+                    match crate::exec::got(self.call(|f| f.flush_file(h, 0))) {
+                        crate::exec::Got::Panic(p) => self.violate("C11", "handle-unusable-after-fault", "file:flush-retry", p.msg),
+                        crate::exec::Got::Err(e) => self.violate("C11", "flush-retry-failed-on-a-healthy-device", "", format!("{:?}", e)),
+                        _ => {}
+                    }
+                }
+            }
+        }
         // the object the failed call operated on may hold old, new or mixed contents - but using it must
         // neither panic nor hang
-        if let Some((vol, dir, name)) = involved {
+        if style != 0 {
+            self.probes.hit("handles_closed_directly_after_fault");
+        }
+        if let (Some((vol, dir, name)), 0) = (involved, style) {
             let ds = self.dslots.iter().position(|s| s.cur.as_ref().map_or(false, |(_, d)| d.vol == vol && d.dir == dir));
             let free_f = self.fslots.iter().position(|s| s.cur.is_none());
             if let (Some(ds), Some(_), Some(nm)) = (ds, free_f, crate::names::sfn_to_string(&name)) {
@@ -219,7 +237,7 @@ impl<'a> World<'a> {
             let (h, fh) = self.fslots[fsl as usize].cur.clone().unwrap();
             let relaxed = self.relax.contains(&(fh.vol, fh.dir, fh.name));
             let mut one = [0u8; 1];
-            let r0 = self.call(|f| f.seek_start(h, 0, 0).and_then(|_| f.read(h, &mut one, 0)));
+            let r0 = if style == 0 { self.call(|f| f.seek_start(h, 0, 0).and_then(|_| f.read(h, &mut one, 0))).map(|_| ()) } else { Ok(()) };
             if r0.is_err() {
                 let lp = self.last_panic.clone();
                 self.violate("C11", "handle-unusable-after-fault", "file:read", lp);
@@ -368,6 +386,11 @@ pub fn fault_enumerate(sc: &Scenario, reference: &FaultRun, budget: usize, seed:
         crate::rng::fnv_add(&mut h, &r.ev_hash.to_le_bytes());
         if r.fired == 0 {
             out.probes.hit("fault_point_not_reached");
+        }
+        for k in ["readonly_call_retried_after_fault", "failed_flush_retried_at_once", "handles_closed_directly_after_fault", "object_of_failed_call_used_afterwards"] {
+            if let Some(n) = r.probes.m.get(k) {
+                out.probes.add(k, *n);
+            }
         }
         for mut v in r.viols.into_iter().filter(|v| v.prop == "C11") {
             v.detail = format!("{} [fault at device call {}{}{}]", v.detail, i, if applied && !dead { ", write applied" } else { "" }, if dead && applied { " and at the call after next" } else if dead { ", device dead until the call returns" } else { "" });
